@@ -5,6 +5,7 @@ import (
 	"fmt"
 	"runtime"
 	"sort"
+	"strings"
 	"time"
 
 	orbitdb "berty.tech/go-orbit-db"
@@ -15,7 +16,7 @@ import (
 
 func init() {
 	Register(&Scenario{Prop: "C17", Name: "concurrent-writers", Run: scenC17, SoftParks: true, Weight: 1,
-		Rule: "one key-value or event-log store on one node (replication off); 2-8 client goroutines each doing 1-3 writes, plus reader operations, with the three write-path hooks (after the log append, after the head is persisted, after the view update) active so that every writer parks there and the kernel releases one parked goroutine at a time in a drawn order (for 2 writers x 1 write every interleaving of the 2x3 park points is reachable and the space is covered many times over in the quick tier); oracle: every successful call returned a distinct entry, all are in the log and view when the writers finish, the invoke/return history (stamped with a global event counter) is linearizable against a sequential map/list model (porcupine), every crash prefix of the node's effect log recovers every entry acknowledged at or before it, and after clean close + reopen + Load(-1) all acknowledged entries are there; non-trivial = >=2 writers were parked at the same time at least once"})
+		Rule: "one key-value or event-log store on one node (replication off); 2-8 client goroutines each doing 1-3 writes, plus reader operations, with the three write-path hooks (after the log append, after the head is persisted, after the view update) active so that every writer parks there and the kernel releases one parked goroutine at a time in a drawn order (for 2 writers x 1 write every interleaving of the 2x3 park points is reachable and the space is covered many times over in the quick tier); in a sixth of the runs one write of the cached local heads fails with a disk error (that writer's call fails and is not counted as acknowledged; the linearizability check is skipped for such a run); oracle: every successful call returned a distinct entry, all are in the log and view when the writers finish, the invoke/return history (stamped with a global event counter) is linearizable against a sequential map/list model (porcupine), every crash prefix of the node's effect log recovers every entry acknowledged at or before it, and after clean close + reopen + Load(-1) all acknowledged entries are there; non-trivial = >=2 writers were parked at the same time at least once"})
 }
 
 type c17op struct {
@@ -41,6 +42,30 @@ func scenC17(k *K) {
 		c.RandomWrite(0) // non-empty start
 	}
 	startEffects := len(T.Disk.Effects)
+	preExisting := LogHashSet(st)
+	// in a sixth of the runs one write of the cached local heads fails (a transient disk
+	// error, the 1st-3rd such write of the concurrent phase): that writer's call fails, its
+	// entry may be in the log; everybody else's guarantees stand
+	faulty := k.C.Chance(1, 6)
+	if faulty {
+		skip := k.C.Intn(3)
+		nd := T
+		k.W.mu.Lock()
+		k.W.DiskFault = func(on *Node, kind, space, key string) error {
+			if on == nd && kind == "cache-put" && strings.HasSuffix(key, "_localHeads") {
+				if skip > 0 {
+					skip--
+					return nil
+				}
+				k.W.DiskFault = nil
+				k.W.stat("local-heads-write-failed")
+				return fmt.Errorf("sim: disk error on %s", key)
+			}
+			return nil
+		}
+		k.W.mu.Unlock()
+		k.cleanups = append(k.cleanups, func() { k.W.mu.Lock(); k.W.DiskFault = nil; k.W.mu.Unlock() })
+	}
 	// two ways of interleaving the writers: parked at the three write-path hooks and released one
 	// at a time (coarse, complete at that granularity), or free-running and interleaved at the
 	// inserted statement-level yield points only (fine, e.g. inside the view update)
@@ -171,7 +196,12 @@ func scenC17(k *K) {
 	seen := map[string]string{}
 	have := LogHashSet(st)
 	var acked []*wrec
+	failedWrites := 0
 	for _, r := range recs {
+		if r.op.Err != nil && faulty && failedWrites == 0 && strings.Contains(r.op.Err.Error(), "sim: disk error") {
+			failedWrites++ // the writer whose heads could not be persisted: not acknowledged
+			continue
+		}
 		if r.op.Err != nil {
 			k.Failf("C17/write-error", "%s failed: %v", r.op.Name, r.op.Err)
 		}
@@ -184,13 +214,25 @@ func scenC17(k *K) {
 		}
 		acked = append(acked, r)
 	}
-	if kv, ok := st.(iface.KeyValueStore); ok {
+	if kv, ok := st.(iface.KeyValueStore); ok && faulty {
+		// the entry of the writer that failed may be in the log and not (yet) in the view
+		base := map[string]bool{}
+		for h := range preExisting {
+			base[h] = true
+		}
+		for _, r := range acked {
+			base[r.hash] = true
+		}
+		if ok, why := ReadAtSomeState(k, st, base, KVState(kv)); !ok {
+			k.Failf("C17/view-differs", "after the writers finished (one write failed on a disk error) the view %s is not the replay of the acknowledged part of the log, with or without the failed writer's entry (%s)", MapStr(KVState(kv)), why)
+		}
+	} else if ok {
 		if want, got := ReplayLWW(LogValues(st)), KVState(kv); !EqMap(want, got) {
 			k.Failf("C17/view-differs", "after the writers finished the view %s is not the replay of the log %s", MapStr(got), MapStr(want))
 		}
 	} else {
 		names := fmt.Sprint(LogNames(st))
-		for _, r := range recs {
+		for _, r := range acked {
 			if !containsVal(listValues(st.(iface.EventLogStore)), r.in.val) {
 				k.Failf("C17/entry-not-listed", "%s is not listed: %s", r.op.Name, names)
 			}
@@ -210,7 +252,11 @@ func scenC17(k *K) {
 	_ = initial
 	// porcupine's search is exponential in the number of overlapping operations: only short
 	// histories are checked (the others are counted, never reported)
-	if len(hist) <= 14 {
+	if faulty {
+		// a failed write whose entry is in the log takes effect at some later moment of its
+		// own: the sequential model has no such operation
+		k.Notes["lin_skipped_failed_write"] = 1
+	} else if len(hist) <= 14 {
 		k.Notes["lin_checked"] = 1
 		k.PostRun = append(k.PostRun, func() *Violation {
 			v, inconclusive := c17Linearizable(typ, hist)
@@ -231,6 +277,15 @@ func scenC17(k *K) {
 		universe[h] = true
 	}
 	finalHashes := have
+	if faulty {
+		finalHashes = map[string]bool{}
+		for h := range preExisting {
+			finalHashes[h] = true
+		}
+		for _, r := range acked {
+			finalHashes[r.hash] = true
+		}
+	}
 	c.Down(0, false)
 	prefixes := 0
 	wantP := map[int]bool{}
